@@ -234,7 +234,21 @@ def prec(ctx, obs, q, cov_q, rule='FWD'):
     r = ctx.dep.result(q)
     cs = calls_to(r, cov_q)
     if not cs:
-        obs.bad(rule, q, f'precision is computed from {cov_q.split(".")[-1]}', f'no call to {cov_q}', where(prog, f, f.node))
+        leaf = cov_q.split('.')[-1]
+        con = f'precision is computed from {leaf}'
+        handed = [n for n in ast.walk(f.node) if isinstance(n, ast.Name) and n.id == leaf and isinstance(n.ctx, ast.Load)]
+        others = [c for c in r.calls for g in c.callees if g.startswith(N + 'cov_from_') and g != cov_q]
+        from ..check import _is_new_function
+        via_new = [c for c in r.calls if any(_is_new_function(g) for g in c.callees)]
+        if handed:
+            obs.unk(rule, q, con, f'`{leaf}` is not called here but handed on as a callable', where(prog, f, handed[0]))
+        elif others:
+            obs.bad(rule, q, con, f'`{norm(others[0].node)[:70]}` is called instead of {leaf}: the precision belongs to another estimator',
+                    where(prog, f, others[0].node))
+        elif via_new:
+            obs.unk(rule, q, con, f'no direct call; the work is done in `{norm(via_new[0].node)[:60]}`', where(prog, f, via_new[0].node))
+        else:
+            obs.bad(rule, q, con, f'no call to {cov_q}', where(prog, f, f.node))
         return
     for c in cs:
         b = bound_args(prog, cov_q, c)
